@@ -79,6 +79,18 @@ def gen_case(rng, estimation=False):
                 if isinstance(kd, dict):
                     swap(kd)
         swap(spec["tree"])
+    if rng.random() < 0.3:
+        # a stateful algo wrapped with run_always (the documented use of RebalanceOverTime), behind a scheduler that does not fire at once
+        def rot(tr):
+            st = tr.get("stack") or []
+            if st and st[-1][0] in ("Rebalance", "RebalanceOverTime") and rng.random() < 0.8:
+                st[-1] = ["RebalanceOverTime", rng.randint(3, 6), True]
+                if st[0][0].startswith("Run"):
+                    st[0] = rng.choice([["RunMonthly", False, False, False], ["RunWeekly", False, False, False], ["RunEveryNPeriods", rng.randint(3, 5), rng.randint(1, 2)]])
+            for kd in tr.get("kids") or []:
+                if isinstance(kd, dict):
+                    rot(kd)
+        rot(spec["tree"])
     k = rng.randint(2, 3)
     variants = []
     for i in range(k):
